@@ -137,6 +137,29 @@ func (g *c07Gen) assignStmt(vis []string) (*mj.Node, []string) {
 		}
 		g.labels["multi-let"] = true
 		return &mj.Node{K: "let", Decl: true, Names: []string{x, y}, Es: []*mj.Expr{mj.Str(g.id("m")), mj.Num(float64(g.n(0, 9, "mnum")))}}, with(vis, x, y)
+	case k == 8 && len(vis) >= 1 && g.n(0, 1, "lookupAssign") == 0:
+		// two-value map look-up in the assigning form: rebinds the innermost visible variables, declares nothing
+		var locals []string
+		for _, n := range vis {
+			if n == "a" || n == "b" || n == "c" {
+				locals = append(locals, n)
+			}
+		}
+		if len(locals) == 0 {
+			g.labels["discard"] = true
+			return &mj.Node{K: "set", Names: []string{"_"}, Es: []*mj.Expr{g.value(vis)}}, vis
+		}
+		x, y := "_", locals[g.n(0, len(locals)-1, "lookupOk")]
+		if len(locals) >= 2 && g.n(0, 1, "lookupBoth") == 0 {
+			x = locals[g.n(0, len(locals)-1, "lookupV")]
+			if x == y {
+				x = "_"
+			}
+		}
+		g.p.Vars["LM"] = mj.Recipe{T: "map[string]int", Keys: []string{"here"}, Is: []int64{42}}
+		key := []string{"here", "gone"}[g.n(0, 1, "lookupKey")]
+		g.labels["lookup-assign"] = true
+		return &mj.Node{K: "set", Lookup: true, Names: []string{x, y}, Es: []*mj.Expr{mj.Index(mj.Var("LM"), mj.Str(key))}}, vis
 	case k == 8: // discard
 		g.labels["discard"] = true
 		return &mj.Node{K: "set", Names: []string{"_"}, Es: []*mj.Expr{g.value(vis)}}, vis
@@ -345,7 +368,17 @@ func (g *c07Gen) stmts(depth int, vis []string) []*mj.Node {
 				pn := g.id("p")
 				n.Params = []mj.Param{{Name: pn, E: g.value(nil)}}
 				inner = with(vis, pn)
-				if g.n(0, 2, "paramFromDot") == 0 {
+				if len(vis) > 0 && g.n(0, 3, "paramNamedLikeVisible") == 0 {
+					// a parameter that takes a visible variable of the same name as its default: the default is
+					// evaluated once, outside the parameter's own scope
+					same := vis[g.n(0, len(vis)-1, "paramSameName")]
+					if same != "lower" {
+						n.Params = []mj.Param{{Name: same, E: mj.Bin("+", mj.Str("<"), mj.Var(same))}}
+						pn = same
+						inner = with(vis, pn)
+						g.labels["block-parameter-named-like-a-visible-variable"] = true
+					}
+				} else if g.n(0, 2, "paramFromDot") == 0 {
 					// the default is an expression of the call site: '.' in it is the caller's context, also
 					// when the block is given a context of its own
 					n.Params[0].E = mj.Dot()
